@@ -467,7 +467,7 @@ func (p *parser) primary() (Expr, error) {
 var clauseKW = map[string]bool{"requires": true, "ensures": true, "xensures": true, "inv": true, "modifies": true,
 	"lock": true, "pure": true, "nopanic": true, "trusted": true, "maypanic": true, "params": true, "results": true,
 	"fn": true, "pred": true, "uf": true, "ghost": true, "global": true, "axiom": true, "xmodifies": true, "reads": true,
-	"callsonly": true, "delegates": true, "atcall": true, "exceptional": true, "implements": true, "opaque": true, "returns": true}
+	"callsonly": true, "delegates": true, "atcall": true, "exceptional": true, "implements": true, "opaque": true, "returns": true, "cut": true}
 
 // ParseSpecLines parses the logical lines (already stripped of the //@ prefix).
 func ParseSpecLines(pkg, file string, lines []string, lineNos []int) (*SpecFile, error) {
@@ -605,6 +605,20 @@ func ParseSpecLines(pkg, file string, lines []string, lineNos []int) (*SpecFile,
 					rest = strings.TrimSpace(rest[j+1:])
 				}
 				c.Key = rest
+				cur.Clauses = append(cur.Clauses, c)
+			case "cut":
+				// cut <calleeKey> <ordinal> [props] label: expr   -- proved right after that call returns, then assumed
+				f := strings.SplitN(rest, " ", 3)
+				if len(f) < 3 {
+					return nil, errf(fmt.Errorf("cut needs callee, ordinal and an expression"))
+				}
+				c, err := parseClause(kw, strings.TrimSpace(f[2]))
+				if err != nil {
+					return nil, errf(err)
+				}
+				c.Key = f[0]
+				fmt.Sscanf(f[1], "%d", &c.Loop)
+				c.File, c.Line = file, l.n
 				cur.Clauses = append(cur.Clauses, c)
 			case "atcall":
 				// atcall <calleeKey> [props] label: expr
